@@ -32,7 +32,7 @@ LEVEL_TEXT = ("Exploration: thousands of generated programs per run are evaluate
               "Mutated programs must fail with a BASIC error or agree with the reference; none may crash, abort or hang.")
 FLOORS = {"quick": 500, "thorough": 5000}
 SHARDS = {"quick": int(os.environ.get("C17_SHARDS", "8")), "thorough": 16}      # C17_SHARDS: development (sensitivity runs)
-BUDGET = {"quick": {"valid": 230, "large": 6, "malformed": 300}, "thorough": {"valid": 1600, "large": 50, "malformed": 2000},
+BUDGET = {"quick": {"valid": 200, "large": 6, "malformed": 270}, "thorough": {"valid": 1600, "large": 50, "malformed": 2000},
           "replay": {"valid": 1, "large": 1, "malformed": 1}}
 ASAN_EVERY = {"quick": 3, "thorough": 2, "replay": 1}
 TIMEOUT_S = 60.0
@@ -45,7 +45,9 @@ ASAN_BIN = os.path.join(lib.BUILD, "asan", "apirunner_asan")
 
 def prepare(tier):
     lib.build("rel", ["libiphreeqc_rel.so"])
-    if os.environ.get("C17_NO_ASAN"):      # development switch for sensitivity runs in scratch trees (saves the sanitizer build)
+    if os.environ.get("C17_NO_ASAN") or tier == "replay":
+        # C17_NO_ASAN: development switch for sensitivity runs in scratch trees (saves the sanitizer build);
+        # a replay uses the sanitizer binary only if a run has built it
         return
     try:
         lib.build("asan", ["apirunner_asan"])
